@@ -37,12 +37,14 @@ CLAIMED = {
     "C05": ("Lean 4 theorems (case analysis over input kinds; monotonicity of the consumed set; characterisation of what one update consumes) "
             "+ checked correspondence",
             "Consumption hides exactly the inputs sharing a source or a modifier key with a contributing input, only when the consuming action is "
-            "not None, persists for the rest of the frame and is reset by the next one - proved for all readers and inputs." + CORR, "§5 C05"),
+            "not None, persists for the rest of the frame (every later action, instance and lower-priority context evaluates a hidden binding on the "
+            "inactive value) and is reset by the next one - proved for all readers and inputs." + CORR, "§5 C05"),
     "C06": ("Lean 4 theorems (sortedness of the registry as an invariant of every reachable application state, by induction over operation "
             "histories incl. observer-issued and command-issued operations; list-order evaluation; uniqueness of the insertion point) + checked correspondence "
             "incl. all insertion orders of the pooled context types",
             "Every reachable registry is sorted by descending priority and the update walks it in list order, so a strictly higher priority type "
-            "is always evaluated (and consumes) first." + CORR, "§5 C06"),
+            "is always evaluated (and consumes) first: whatever its consuming actions hid reads inactive for every lower-priority context "
+            "(higher_priority_wins, over every reachable state)." + CORR, "§5 C06"),
     "C07": ("Lean 4 theorems (mirror invariant registry <-> world over every reachable state: induction over operation histories; swap_remove as a "
             "permutation; one group per type, no empty group, no duplicate holder) + checked correspondence incl. exhaustive short op sequences",
             "Lookup succeeds exactly for current holders in every reachable state; groups exist exactly while a holder exists; a holder arriving "
@@ -84,11 +86,13 @@ CLAIMED = {
             "gamepad selection) + checked correspondence incl. all 16 masks x all 256 modifier-key subsets",
             "Keyboard/mouse bindings are active iff key/button (or non-zero delta) and, per required modifier, left or right variant - "
             "irrespective of other keys; single-gamepad contexts read only their gamepad; `Any` sees any pressed button and the unique "
-            "non-zero axis. Partial: that Bevy's input resources hold what devices sent is Bevy's contract (modelled)." + CORR, "§5 C15"),
+            "non-zero axis; at any point of the frame an input that is not hidden by consumption or by the UI flag reads its physical state "
+            "(unhidden_reads_physical). Partial: that Bevy's input resources hold what devices sent is Bevy's contract (modelled)." + CORR, "§5 C15"),
     "C16": ("Lean 4 theorems about the reader model (UI flag recomputed per frame; mouse inputs masked, keyboard/gamepad unchanged) + checked "
             "correspondence with Interaction components set by the harness",
             "With an interacted UI element all mouse-sourced inputs read inactive and keyboard/gamepad inputs are unchanged; without one "
-            "nothing is masked. Partial: bevy_ui's own Interaction detection is outside the model." + CORR, "§5 C16"),
+            "nothing is masked; the flag is constant over the frame, so every context - whatever was evaluated and consumed before it - is "
+            "masked alike (ui_masks_mouse_all_frame). Partial: bevy_ui's own Interaction detection is outside the model." + CORR, "§5 C16"),
     "C17": ("Lean 4 theorems (simulation relation `Agree` on the kept contexts' inputs: preserved by evaluating a kept action on both sides and by "
             "any consumption of an input-disjoint action on one side; lifted over instances, groups and the whole registry; determinism) + pairwise runs of the real crate (configuration vs "
             "sub-configuration with the input-disjoint contexts deleted, same script incl. noise) + every scenario run twice in separate processes",
